@@ -520,6 +520,26 @@ def find (root : Node) (start : Pos) (path : Str) (single strict : Bool) : FindR
         | [p] => .one (some p)
         | p :: _ :: _ => if strict then .err .lookup else .one (some p)
 
+/-- `find` when the path argument is not a `str`: `pathexpr` joins an iterable of segments with
+    `/`, but the "matched multiple elements" message is built with `"...%r..." % path`, which
+    raises `TypeError` when `path` is a tuple of other than one element (`fmtOK = false`). -/
+def findWith (fmtOK : Bool) (root : Node) (start : Pos) (path : Str) (single strict : Bool) : FindRes :=
+  match tokenize path with
+  | .error e => .err e
+  | .ok ops =>
+    match evalOps root strict ops start with
+    | .error e => .err e
+    | .ok res =>
+      if !single then .many res
+      else
+        match res with
+        | [] => .one none
+        | [p] => .one (some p)
+        | p :: _ :: _ => if strict then (if fmtOK then .err .lookup else .err .type) else .one (some p)
+
+theorem findWith_true (root : Node) (start : Pos) (path : Str) (single strict : Bool) :
+    findWith true root start path single strict = find root start path single strict := rfl
+
 /-! ## `Element.fq_name` -/
 
 /-- `str(n)` for a non-negative int -/
